@@ -1,3 +1,4 @@
+import HqModel.Props.C20Sites
 import HqModel.Auth.Model
 import HqModel.Auth.Trace
 import HqModel.Lemmas.AuthBasic
